@@ -260,13 +260,27 @@ pub fn run(seed: u64, thorough: bool, shards: u64) -> Leg {
     let mut total = Leg::new(
         "c12-wire-inproc",
         "C12",
-        "canonical DHCP messages (hlen 0..16, NUL-free sname/file, option codes 1..254, value lengths 0..1500 incl. 0, 255, 256, 510, 511) through reference-encode -> erbium decode -> erbium encode -> reference decode; mutated seed bytes accepted by erbium through encode/decode; Fragment::new_udp4 frames for payload lengths 0..1472 decoded with checksum verification; all 65536 flag values; distinct = (leg, shape class)",
+        "canonical DHCP messages (hlen 0..16, NUL-free sname/file, option codes 1..254, value lengths 0..1500 incl. 0, 255, 256, 510, 511) through reference-encode -> erbium decode -> erbium encode -> reference decode; mutated seed bytes accepted by erbium through encode/decode; Fragment::new_udp4 frames for payload lengths 0..1472 decoded with checksum verification; all 65536 flag values for a selecting, a renewing (ciaddr set), a relayed (giaddr set) and an all-fields-set message; distinct = (leg, shape class)",
     );
     total.floor = 5_000;
     // (c) all 65536 flag values: exhaustive, single thread, counted once
-    {
+    // for a selecting client (ciaddr 0), a renewing one (ciaddr set), a relayed one (giaddr set) and a message with
+    // every other header field non-zero: the bit alone decides
+    for variant in 0..4u8 {
         let mut base = rd::Msg::default();
-        base.options = vec![(53, vec![1])];
+        base.options = vec![(53, vec![if variant == 0 { 1 } else { 3 }])];
+        if variant == 1 || variant == 3 {
+            base.ciaddr = std::net::Ipv4Addr::new(10, 1, 2, 3);
+        }
+        if variant == 2 || variant == 3 {
+            base.giaddr = std::net::Ipv4Addr::new(10, 9, 9, 1);
+        }
+        if variant == 3 {
+            base.hops = 3;
+            base.secs = 0xffff;
+            base.yiaddr = std::net::Ipv4Addr::new(10, 1, 2, 3);
+            base.siaddr = std::net::Ipv4Addr::new(10, 1, 2, 1);
+        }
         let mut mismatches = 0u64;
         let mut first: Option<u16> = None;
         let mut bytes = rd::encode(&base);
@@ -298,8 +312,8 @@ pub fn run(seed: u64, thorough: bool, shards: u64) -> Leg {
             let f = first.unwrap();
             total.violation(
                 "C12/broadcast-flag-wrong-bit",
-                format!("get_broadcast_flag() disagrees with bit 15 for {} of 65536 flag values (first: {:#06x})", mismatches, f),
-                json!({"engine": "c12", "kind": "flags", "flags": f}),
+                format!("get_broadcast_flag() disagrees with bit 15 for {} of 65536 flag values (first: {:#06x}; ciaddr {}, giaddr {})", mismatches, f, base.ciaddr, base.giaddr),
+                json!({"engine": "c12", "kind": "flags", "flags": f, "variant": variant}),
             );
         }
     }
